@@ -40,6 +40,8 @@ BUILTIN_EXC_BASES = {
     "struct.error": "Exception",
     "UnicodeDecodeError": "ValueError",
     "SystemExit": "BaseException",
+    "Warning": "Exception",
+    "DeprecationWarning": "Warning",
 }
 
 NOOP_BASES = {"object", "Exception", "typing.Protocol", "Protocol", "abc.ABC", "ABC", "enum.Enum", "Enum",
@@ -495,7 +497,21 @@ class Interp:
                 if i == len(e.values) - 1:
                     res.append(("val", v, s2))
                     continue
-                # pure boolean terms can be merged instead of forked when the rest is side-effect free
+                # symbolic Boolean operand and a call-free rest: merge into one term instead of forking
+                if is_symbool(v) and not any(isinstance(n, (ast.Call, ast.Lambda, ast.Await)) for x in e.values[i + 1:] for n in ast.walk(x)):
+                    guard = v if is_and else z3.Not(v)
+                    s3 = s2.fork()
+                    s3.pc.append(guard)
+                    if not self.feasible(s3.pc):
+                        res.append(("val", not is_and, s2))
+                        continue
+                    npc = len(s3.pc)
+                    sub = go(i + 1, s3)
+                    if len(sub) == 1 and sub[0][0] == "val" and len(sub[0][2].pc) == npc and (isinstance(sub[0][1], bool) or is_symbool(sub[0][1])):
+                        r = sub[0][1]
+                        rz = to_z3bool(r)
+                        res.append(("val", z3.simplify(z3.And(v, rz) if is_and else z3.Or(v, rz)), s2))
+                        continue
                 for b, s3 in self.branch(v, s2):
                     if b == is_and:
                         res += go(i + 1, s3)
@@ -941,6 +957,10 @@ class Interp:
             subst = True
         elif qualname not in self.no_contract_for and st.depth > 0:
             self.inlined.add(qualname)
+        for d in fn.decorator_list:
+            dn = ast.unparse(d)
+            if dn.split(".")[-1] not in ("property", "staticmethod", "abstractmethod", "dataclass", "override"):
+                raise Unsupported(f"decorator @{dn} on {qualname} (its effect is not modelled)", fn)
         env, err = self.bind_params(fn, args, kwargs, st, module)
         if err is not None:
             return [("exc", err, st)]
